@@ -9,14 +9,19 @@ package c04
 // as several `---` documents of one file) and the target document; the two projects must be equal.
 
 import (
+	"context"
 	"encoding/json"
 	"fmt"
+	"os"
 	"reflect"
 	"regexp"
 	"sort"
 	"strconv"
 	"strings"
 	"time"
+
+	"github.com/compose-spec/compose-go/v2/loader"
+	"github.com/compose-spec/compose-go/v2/override"
 
 	"verifharness/core"
 )
@@ -38,6 +43,7 @@ type c04Split struct {
 	// input shapes on which the unchanged tree is known to break the property (findings/C04.txt); they become part
 	// of the failure key so that a recorded finding never hides a failure on any other shape
 	Labels []string
+	Null   bool // some later part mentions the attribute as an explicit null (nothing to apply)
 }
 
 type c04SplitInfo struct {
@@ -52,6 +58,9 @@ type c04SplitCase struct {
 	MultiDoc bool           `json:"multi_doc"` // one file with `---` documents instead of several files
 	Attrs    []string       `json:"attrs"`     // attributes that were split (for the failure message)
 	Splits   []c04SplitInfo `json:"splits"`
+	// the service is named `x-web` instead of `web`: mergeMappings treats EVERY key starting with "x-" as an extension and
+	// replaces its value as a whole, also where the key is a user-chosen name (recorded finding xprefix-name-replaced:services)
+	XNamed bool `json:"x_named,omitempty"`
 }
 
 // labelAt: the known-defect label that explains a failure with key `base` at position `where`, if the splits that
@@ -110,6 +119,57 @@ func c04Load(docs []string, multi bool) any {
 	return core.LoadOutcome(core.LoadReq{Files: files, ConfigFiles: cfgs, ProjectName: "p", Profiles: []string{"*"}})
 }
 
+// c04ModelFixpoint: the invariant of the fold proved in Props/C04Stage.lean (`loadFilesU_deduplicated`), observed on the
+// real loader: the model accumulated over all files and documents (every stage of processRawYaml included; no
+// normalisation / default values afterwards) is a fixed point of override.EnforceUnicity — every keyed list holds a
+// single entry per key.  Returns "" or the first position at which EnforceUnicity still changes the model.
+func c04ModelFixpoint(docs []string, multi bool) string {
+	files := map[string]string{}
+	for k, v := range c04OracleFiles {
+		files[k] = v
+	}
+	var cfgs []string
+	if multi {
+		files["compose.yaml"] = strings.Join(docs, "\n---\n") + "\n"
+		cfgs = []string{"compose.yaml"}
+	} else {
+		for i, d := range docs {
+			n := fmt.Sprintf("compose.%d.yaml", i)
+			files[n] = d + "\n"
+			cfgs = append(cfgs, n)
+		}
+	}
+	root, err := core.Materialize(files)
+	defer os.RemoveAll(root)
+	if err != nil {
+		return ""
+	}
+	req := core.LoadReq{Files: files, ConfigFiles: cfgs}
+	model, err := loader.LoadModelWithContext(context.Background(), req.Details(root), func(o *loader.Options) {
+		o.SkipNormalization = true
+		o.SkipDefaultValues = true
+		o.SkipConsistencyCheck = true
+		o.Profiles = []string{"*"}
+		o.SetProjectName("p", true)
+	})
+	if err != nil {
+		return "" // rejected splits are reported by the comparison with the target
+	}
+	before := core.EncodeVal(model)
+	again, err := override.EnforceUnicity(model)
+	if err != nil {
+		return "error: " + c04ErrClass(err)
+	}
+	after := core.EncodeVal(again)
+	bb, _ := json.Marshal(before)
+	ab, _ := json.Marshal(after)
+	if string(bb) == string(ab) {
+		return ""
+	}
+	where, a, b := c04Diff("", core.DecodeVal(before), core.DecodeVal(after))
+	return fmt.Sprintf("%s: the loaded model holds %s, EnforceUnicity makes it %s", where, c04Short(a), c04Short(b))
+}
+
 var c04ErrScrub = regexp.MustCompile(`compose\.\d+\.yaml|compose\.yaml|target\.yaml`)
 
 func init() {
@@ -120,7 +180,7 @@ func init() {
 			if err := json.Unmarshal(raw, &c); err != nil {
 				return map[string]any{"bad": err.Error()}
 			}
-			return map[string]any{"split": c04Load(c.Docs, c.MultiDoc), "target": c04Load([]string{c.Target}, false)}
+			return map[string]any{"split": c04Load(c.Docs, c.MultiDoc), "target": c04Load([]string{c.Target}, false), "fixpoint": c04ModelFixpoint(c.Docs, c.MultiDoc)}
 		},
 		Judge: func(args, real, _ json.RawMessage) *core.Verdict {
 			if v := core.CrashVerdict(real); v != nil {
@@ -129,13 +189,18 @@ func init() {
 			var c c04SplitCase
 			json.Unmarshal(args, &c)
 			var r struct {
-				Split  map[string]any `json:"split"`
-				Target map[string]any `json:"target"`
+				Split    map[string]any `json:"split"`
+				Target   map[string]any `json:"target"`
+				Fixpoint string         `json:"fixpoint"`
 			}
 			if err := json.Unmarshal(real, &r); err != nil || r.Split == nil || r.Target == nil {
 				return core.Disagree("c04.split: unreadable outcome")
 			}
 			attrs := strings.Join(c.Attrs, "+")
+			if r.Fixpoint != "" {
+				where := strings.SplitN(r.Fixpoint, ":", 2)[0]
+				return core.Fail("not-deduplicated:"+c04KeyOfPath(where), fmt.Sprintf("split %s: after the last file the accumulated model is not a fixed point of EnforceUnicity (a keyed list holds two entries for one key) at %s", attrs, r.Fixpoint))
+			}
 			tOk, tHas := r.Target["ok"]
 			if !tHas {
 				// the generated target is not a valid compose document: outside the domain
@@ -144,6 +209,9 @@ func init() {
 			sOk, sHas := r.Split["ok"]
 			if !sHas {
 				et := fmt.Sprint(r.Split["err"])
+				if c.XNamed && strings.Contains(et, "x-web") {
+					return core.Fail("xprefix-name-replaced:services", fmt.Sprintf("service named x-web: the later file replaces the whole service instead of merging it key by key (%s): %v", attrs, r.Split["err"]))
+				}
 				return core.Fail("split-error:"+c04ErrKey(et)+c.labelAt(c04ErrKey(et), c04ErrPath.FindString(et)), fmt.Sprintf("the target document loads but its split (%s) is rejected: %v", attrs, r.Split["err"]))
 			}
 			c04SortIpam(sOk)
@@ -152,6 +220,9 @@ func init() {
 				return nil
 			}
 			where, a, b := c04Diff("", sOk, tOk)
+			if c.XNamed && strings.HasPrefix(where, ".services.x-web") {
+				return core.Fail("xprefix-name-replaced:services", fmt.Sprintf("service named x-web, split %s: at %s the merged files give %s but the target document gives %s (the later file replaced the whole service)", attrs, where, c04Short(a), c04Short(b)))
+			}
 			return core.Fail("split:"+c04KeyOfPath(where)+c.labelAt(c04KeyOfPath(where), where), fmt.Sprintf("split %s: at %s the merged files give %s but the target document gives %s", attrs, where, c04Short(a), c04Short(b)))
 		},
 	})
@@ -354,6 +425,7 @@ func c04Context() map[string]any {
 
 type c04o struct {
 	*c04g
+	dups int // in-file duplicates generated so far (a key / entry repeated inside ONE part)
 }
 
 func (g *c04o) n() int { return 1 + g.r.Intn(3) } // number of overrides
@@ -515,6 +587,12 @@ func (g *c04o) spellKV(keys []string, m map[string]*string, allowTyped bool) any
 	if g.chance(1, 2) {
 		l := []any{}
 		for _, k := range keys {
+			// a key repeated inside ONE file: the later entry of the same file wins (so a key can make its first
+			// appearance after another key's duplicate has been collapsed: [A=1, A=2, B=0, B=1])
+			if g.chance(1, 4) {
+				l = append(l, k+"=stale")
+				g.dups++
+			}
 			if m[k] == nil {
 				l = append(l, k)
 			} else {
@@ -683,7 +761,7 @@ func (g *c04o) splitList(n int, unique bool) c04Split {
 		}
 		any_ = true
 		var items []string
-		for k := g.r.Intn(4); k > 0; k-- {
+		for k := g.r.Intn(5); k > 0; k-- {
 			it := a.pool[g.r.Intn(len(a.pool))]
 			if !unique {
 				// plain sequences are appended as they are; the schema rejects repeated items, so keep them distinct
@@ -695,8 +773,9 @@ func (g *c04o) splitList(n int, unique bool) c04Split {
 				items = append(items, it)
 				continue
 			}
-			if unique {
-				// an entry repeated inside one file is also collapsed by unicity; keep a file's own entries distinct
+			if unique && !g.chance(1, 3) {
+				// an entry repeated inside one file is also collapsed by unicity (it keeps its first position);
+				// two times out of three keep a file's own entries distinct
 				dup := false
 				for _, x := range items {
 					if x == it {
@@ -705,6 +784,11 @@ func (g *c04o) splitList(n int, unique bool) c04Split {
 				}
 				if dup {
 					continue
+				}
+			}
+			for _, x := range items {
+				if unique && x == it {
+					g.dups++
 				}
 			}
 			items = append(items, it)
@@ -748,8 +832,16 @@ func (g *c04o) splitWholesale(n int) c04Split {
 		vals = []any{"echo hi", []any{"echo", "hi"}, []any{"a", "b", "c"}, "sleep 1", []any{}, []any{"x"}}
 	}
 	s := c04Split{Path: path, Kind: "wholesale", Target: c04Absent}
+	nullable := path[len(path)-1] != "test" // the schema accepts `command: null` / `entrypoint: null` (back to the image default)
 	for i := 0; i <= n; i++ {
-		if g.chance(1, 2) || (i == n && isAbsent(s.Target)) {
+		if nullable && len(s.Parts) > 0 && !isAbsent(s.Target) && g.chance(1, 4) {
+			// the later file sets the attribute to null: replaced wholesale, i.e. the attribute is gone
+			s.Parts = append(s.Parts, nil)
+			s.Target = c04Absent
+			s.Kind = "wholesale+null"
+			continue
+		}
+		if g.chance(1, 2) || (i == n && isAbsent(s.Target) && s.Kind == "wholesale") {
 			v := c04DeepCopy(vals[g.r.Intn(len(vals))])
 			s.Parts = append(s.Parts, v)
 			s.Target = c04DeepCopy(v)
@@ -968,6 +1060,7 @@ func (g *c04o) splitKeyed(n int) c04Split {
 	s := c04Split{Path: k.path, Kind: "keyed-later-wins"}
 	var order []string
 	final := map[string]any{}
+	ranged := map[string]bool{}
 	any_ := false
 	for i := 0; i <= n; i++ {
 		if g.chance(1, 4) {
@@ -977,19 +1070,27 @@ func (g *c04o) splitKeyed(n int) c04Split {
 		any_ = true
 		l := []any{}
 		own := map[string]bool{}
-		for c := g.r.Intn(4); c > 0; c-- {
+		for c := g.r.Intn(5); c > 0; c-- {
 			raws, es := k.gen()
 			clash := false
 			for _, e := range es {
 				if own[e.key] {
-					clash = true // one entry per key inside a single file
+					clash = true
 				}
 			}
-			if clash {
+			// mostly one entry per key inside a single file; a single (non-range) entry may repeat a key of its own
+			// file, then the later entry of the file wins and keeps the first position
+			if clash && (len(es) > 1 || ranged[es[0].key] || !g.chance(1, 2)) {
 				continue
+			}
+			if clash {
+				g.dups++
 			}
 			if len(es) > 1 {
 				s.Kind = "keyed-later-wins+port-range"
+				for _, e := range es {
+					ranged[e.key] = true
+				}
 			}
 			l = append(l, raws...)
 			for _, e := range es {
@@ -1470,7 +1571,43 @@ func c04ReplayFrom(s c04Split, from int, start any) any {
 	return start
 }
 
+// kinds for which a null in a later file means "nothing to apply" (the value so far is kept)
+var c04NullKeeps = map[string]bool{
+	"scalar-replace": true, "map-deep": true, "kv-by-key": true, "append": true, "append-with-duplicate": true,
+	"keyed-later-wins": true, "keyed-later-wins+port-range": true,
+}
+
+// oneSplit: one attribute split; one time out of six a part that does not mention the attribute (after a part that
+// gave it a value) mentions it as an explicit null instead — except for the wholesale attributes (see splitWholesale)
+// the later file then has nothing to apply and the expected final value is the same.
 func (g *c04o) oneSplit(n int) c04Split {
+	s := g.oneSplit0(n)
+	if !c04NullKeeps[s.Kind] || !g.chance(1, 6) {
+		return s
+	}
+	var cand []int
+	seenValue := false
+	for i, p := range s.Parts {
+		if isAbsent(p) {
+			if seenValue && i > 0 {
+				cand = append(cand, i)
+			}
+			continue
+		}
+		if _, tagged := p.(*yDoc); tagged {
+			return s
+		}
+		seenValue = true
+	}
+	if len(cand) == 0 {
+		return s
+	}
+	s.Parts[cand[g.r.Intn(len(cand))]] = nil
+	s.Null = true
+	return s
+}
+
+func (g *c04o) oneSplit0(n int) c04Split {
 	switch k := g.r.Intn(20); {
 	case k < 2:
 		return g.splitScalar(n)
@@ -1700,6 +1837,27 @@ func (g *c04o) splitCase(k int) (c04SplitCase, []c04Split) {
 		}
 	}
 	c := c04SplitCase{Attrs: attrs, Splits: infos, MultiDoc: g.chance(1, 3)}
+	if g.chance(1, 15) {
+		// a user-chosen NAME that happens to start with "x-": names are not extensions
+		c.XNamed = true
+		rename := func(d map[string]any) {
+			if svcs, ok := d["services"].(map[string]any); ok {
+				if w, ok := svcs["web"]; ok {
+					delete(svcs, "web")
+					svcs["x-web"] = w
+				}
+			}
+		}
+		for _, d := range docs {
+			rename(d)
+		}
+		rename(target)
+		for i := range c.Splits {
+			if strings.HasPrefix(c.Splits[i].Path, "services.web") {
+				c.Splits[i].Path = "services.x-web" + strings.TrimPrefix(c.Splits[i].Path, "services.web")
+			}
+		}
+	}
 	for _, d := range docs {
 		c.Docs = append(c.Docs, yDocOf(d).yaml())
 	}
@@ -1708,15 +1866,25 @@ func (g *c04o) splitCase(k int) (c04SplitCase, []c04Split) {
 }
 
 func runC04Oracle(ctx *core.Ctx, gg *c04g) {
-	g := &c04o{gg}
+	g := &c04o{c04g: gg}
 	for i := 0; i < ctx.Pick(2000, 50000); i++ {
 		k := 1
 		if i%10 >= 7 {
 			k = 2 + ctx.Rng.Intn(3)
 		}
+		d0 := g.dups
 		c, splits := g.splitCase(k)
+		if g.dups > d0 {
+			ctx.Count("split-with-in-file-duplicate")
+		}
 		for _, s := range splits {
 			ctx.Count("split:" + s.Kind)
+			if s.Null {
+				ctx.Count("split-null-mention:" + s.Kind)
+			}
+		}
+		if c.XNamed {
+			ctx.Count("split-x-named-service")
 		}
 		if c.MultiDoc {
 			ctx.Count("split-as-documents")
